@@ -316,9 +316,12 @@ func cmdCheck(args []string) int {
 	if w := envInt("VERIF_WORKERS", 0); w > 0 {
 		cfg.Workers = int(w)
 	}
+	cfg.CrossCheck = 6
+	cfg.RecordQueries = true
 	if tier == "thorough" {
 		cfg.QueryTimeoutMs = 120000
 		cfg.Samples = 24
+		cfg.CrossCheck = 40
 	}
 	eng, err := interp.Load(cfg)
 	if err != nil {
